@@ -21,7 +21,7 @@
          `dispatchToMap`, `deliver`, `broadcastProgress`
       `proto_to_event` (prev_value only for `prev_kv` watchers), `make_cancel_event` (revision 0)
   * `d-engine-server/src/node/builder.rs`: the counter given to the dispatcher (`last_applied_ref`) is
-      initialised with the start-up `last_applied_index` and never written afterwards → `progressRev` is a constant.
+      initialised with the start-up `last_applied_index`; `dispatch_event` raises it to each event's revision.
 
   Keys are byte strings (`List Nat`, 47 = '/'); values are numbers.
 -/
@@ -116,7 +116,8 @@ structure St where
   queueSize : Nat               -- WatchConfig.event_queue_size
   maxWatchers : Nat             -- WatchConfig.max_watcher_count
   hbEnabled : Bool              -- heartbeat_interval_ms > 0
-  progressRev : Nat             -- value of the dispatcher's `last_applied` counter (never advanced)
+  progressRev : Nat             -- the dispatcher's `last_applied` counter: start-up value, raised to the
+                                -- revision of every event it dispatches (fix of F23)
   kv : KV := []
   nextIndex : Nat := 1          -- index of the next applied entry
   sent : List PEv := []         -- every value ever sent on the broadcast channel
@@ -265,6 +266,18 @@ def broadcastProgress (s : St) : St :=
   let s1 := ek.foldl (fun s k => dispatchToMap s false k e) s
   pk.foldl (fun s k => dispatchToMap s true k e) s1
 
+/-- `cancel_all_watchers`: CANCELED (key = the watcher's own key) into the reserved slot of every registered
+    watcher, then `unregister`. A closed receiver just gets unregistered. -/
+def cancelOne (w : Watcher) : Watcher :=
+  if w.registered then
+    if w.closed then { w with registered := false }
+    else { w with chan := w.chan ++ [cancelEv w.key], hist := w.hist ++ [cancelEv w.key], registered := false }
+  else w
+
+def cancelAll (s : St) : St :=
+  { s with watchers := s.watchers.map cancelOne,
+           total := s.total - (s.watchers.filter (·.registered)).length }
+
 /-- One iteration of `WatchDispatcher::run`'s biased select. `none` = nothing ready. -/
 def dstep (s : St) : Option St :=
   match s.unregQ with
@@ -272,12 +285,14 @@ def dstep (s : St) : Option St :=
   | [] =>
     if s.cursor < s.sent.length then
       if s.sent.length - s.cursor > ringCap s then
-        -- RecvError::Lagged(n): only logged; the receiver continues at the oldest retained value
+        -- RecvError::Lagged(n): the receiver continues at the oldest retained value; every watcher is
+        -- sent CANCELED and unregistered (`cancel_all_watchers`, fix of F22)
         let next := s.sent.length - ringCap s
-        some { s with cursor := next, lagged := s.lagged + (next - s.cursor) }
+        some (cancelAll { s with cursor := next, lagged := s.lagged + (next - s.cursor) })
       else
         match s.sent[s.cursor]? with
-        | some e => some (dispatchEvent { s with cursor := s.cursor + 1 } e)
+        | some e => some (dispatchEvent { s with cursor := s.cursor + 1,
+                                                 progressRev := max s.progressRev e.rev } e)
         | none => none
     else if s.hbEnabled && s.hbDue then some (broadcastProgress { s with hbDue := false })
     else none
